@@ -236,7 +236,9 @@ func (s *sessionController) updateBinders() error {
 func (s *sessionController) overrideExtension(extension Initializable, override func(), initializedState sessionControllerState) error {
 	panicOnNil("overrideExtension", extension)
 	s.assertNotLocked("overrideExtension")
-	s.assertControllerState("overrideExtension", NoSession)
+	if s.state != NoSession {
+		return errors.New("tls: overrideExtension failed: a session ticket or psk extension has already been set on this connection")
+	}
 	override()
 	if extension.IsInitialized() {
 		s.state = initializedState
